@@ -1,0 +1,17 @@
+//go:build verif
+
+package nodes
+
+import (
+	. "github.com/cube2222/octosql/execution"
+)
+
+// VerifJoinHookKey is the context key under which a verification harness
+// registers a callback that observes every message taken by a join loop.
+type VerifJoinHookKey struct{}
+
+func verifJoinEvent(ctx ExecutionContext, side int, closed, metadata bool) {
+	if h, ok := ctx.Value(VerifJoinHookKey{}).(func(side int, closed, metadata bool)); ok {
+		h(side, closed, metadata)
+	}
+}
